@@ -1,4 +1,3 @@
 SPECIFICATION TraceSpec
-CONSTANT LimitProof = FALSE
 POSTCONDITION TraceAccepted
 CHECK_DEADLOCK FALSE
